@@ -41,6 +41,8 @@ func init() {
 	families["twin_persist"] = genTwinPersist
 	families["adv_boundary"] = genAdvBoundary
 	families["fault_load"] = genFaultLoad
+	families["big_dict_merge"] = genBigDictMerge
+	families["block_drop"] = genBlockDrop
 	families["big_freq"] = genBigFreq
 	families["giant_posting"] = genGiantPosting
 	families["pool_vocab"] = genPoolVocab
@@ -222,6 +224,8 @@ func genIterBig(r *rand.Rand, i int) Scenario {
 			occ := TermOcc{Term: B([]byte("x")), Freq: 1 + d%3, Locs: []Loc{}}
 			if d%7 == 0 {
 				occ.Locs = append(occ.Locs, Loc{Field: "", Pos: 1, Start: d, End: d + 1})
+			} else if d%13 == 0 {
+				occ.Freq = 64 * (1 + d%4) // multiples of 64 without locations: a two-byte freq/hasLocs varint ending in 0x80-aligned bits
 			}
 			doc = append(doc, FieldInst{Name: "a", Len: occ.Freq, Value: Bytes{}, Terms: []TermOcc{occ}})
 		}
